@@ -30,6 +30,14 @@ def _codec_classes(ctx: Ctx, a: str, b: str):
 
 def _cmp_int_atoms(rep: Report, rule: str, key: str, w_fi: FuncInfo, r_fi: FuncInfo, w, r) -> None:
     strip = lambda xs: [a for a in xs if not (a.width == 1 and a.signed is False)]  # noqa: E731
+    # a byte read signed where the writer writes no signed byte: 128..255 come back negative
+    sb_r = [a for a in ints(r) if a.width == 1 and a.signed is True]
+    sb_w = [a for a in ints(w) if a.width == 1 and a.signed is True]
+    if len(sb_r) != len(sb_w):
+        a = (sb_r or sb_w)[0]
+        rep.ob(rule, f"{key}:signed_byte", False, f"{r_fi.file}:{a.line}",
+               f"{len(sb_r)} one-byte field(s) read signed, {len(sb_w)} written signed: a value of 128 or more does not come back")
+        return
     w2, r2 = strip(ints(w)), strip(ints(r))
     if not w2 and not r2:
         return
